@@ -68,7 +68,7 @@ def parse_counterexample(out):
 
 QUICK_MC = ["fix_421", "fix_412", "fix_241", "fix_331", "fix_322", "fix_222", "fix_55"]
 QUICK_MC6 = ["r6_53", "r6_44"]
-THOROUGH_MC = QUICK_MC + ["fix_333s", "fix_2111", "fix_64"]
+THOROUGH_MC = QUICK_MC + ["fix_332", "fix_2111", "fix_64"]
 THOROUGH_MC6 = QUICK_MC6 + ["r6_222", "r6_64"]
 QUICK_COVER = ["cov_22", "cov_41", "cov_32", "cov_211", "cov_311"]
 THOROUGH_COVER = QUICK_COVER + ["cov_221", "cov_33"]
